@@ -170,6 +170,7 @@ func loadWorld(repo string) (*World, error) {
 	if len(w.Contracts) == 0 {
 		return nil, fmt.Errorf("no contract packages (contracts/<c> with config.yml) found under %s", repo)
 	}
+	scanFixedWidth(w)
 	return w, nil
 }
 
